@@ -25,6 +25,14 @@ Theorem C17_flags_words_defined_bits : forall (pc : pctrl) (ah : ahash) (sg : as
 Proof. exact flags_words_defined_bits. Qed.
 Print Assumptions C17_flags_words_defined_bits.
 
+(** the other composition, for every word (also with undefined bits set): re-encoding the decoded
+    flags keeps exactly the defined bits *)
+Theorem C17_flags_words_roundtrip : forall wpc wah was : Z,
+  decon_pc (parse_pc wpc) = Z.land wpc PC_MASK /\ decon_ah (parse_ah wah) = Z.land wah AH_MASK /\
+  decon_as (parse_as was) = Z.land was AS_MASK.
+Proof. exact flags_words_roundtrip. Qed.
+Print Assumptions C17_flags_words_roundtrip.
+
 (** ** parse (serialise p) = p *)
 (** version-2 layout (LCPPolicy, 54 bytes), every field value in range, version <= 0x204 *)
 Theorem C17_parse_encode_v2 : forall (sha3 : bool) (p : policy1),
